@@ -113,7 +113,9 @@ impl RefZone {
                 if set.ttl != ttl {
                     return Err(AddErr::TtlMismatch);
                 }
-                if !set.rdatas.iter().any(|r| rr::ref_eq(rec.class, rec.rtype, &rec.rdata, r)) {
+                // (equal RDATA is in any case equal octet for octet up to ASCII case: a cheap filter
+                // in front of the comparison proper, which matters for RRsets of a thousand records)
+                if !set.rdatas.iter().any(|r| r.len() == rec.rdata.len() && r.eq_ignore_ascii_case(&rec.rdata) && rr::ref_eq(rec.class, rec.rtype, &rec.rdata, r)) {
                     set.rdatas.push(rec.rdata.clone());
                 }
             }
